@@ -50,6 +50,11 @@ CHECKS = {
         technique="TLA+ protocol spec Audit (screen + main call, retries, HTTP- and text-level fault classes) explored exhaustively by TLC (FailClosed, NonPassing); every terminal behaviour replayed on the real llm.CallLLM via a scripted loopback server (permissive beyond the script) and `sfw audit` end to end; observed runs validated by TLC against AuditContract (FailClosed, EnvelopeOK, ExitOK)",
         text="TLC enumerates all provider-response sequences over the class alphabets (3236 terminal behaviours) and checks the fail-closed invariant on the protocol; the behaviours (stratified sample in quick, all in thorough; OpenAI- and Gemini-style) are replayed on the real client with hostile commit messages, the server answering as permissively as possible once the script is exhausted; verdict/err, every request envelope, and the end-to-end exit status are validated by TLC.",
         note=TRUST + "; response classes rather than byte-level HTTP fuzzing; envelope facts are parsed by the orchestrator"),
+    "C08": dict(
+        level="model_checking", ref="3/C08",
+        technique="TLA+ design spec Match (confidence calculus in exact rational arithmetic, both back ends' scan wrappers) checked by TLC against the contract over the full product of a small domain; TLC-generated points scored by the real MatchSignature (binding); seeded scan cases on both real back ends validated by TLC against ScanContract with cross-event relations (monotone in threshold, exact => full)",
+        text="TLC evaluates ~945k (thorough ~10M) abstract (topology, signature, configuration) points with rational arithmetic, including the 0/0 entropy case, and shows every alert is justified, in [0,1], above the threshold, monotone and exact=>full; 1200 (6000) of the points are scored by the real code and must agree with the model to 1e-9; 250 (1500) seeded cases are scanned on the real Pebble and JSON stores in both modes at 5-7 thresholds and each result list and its relation to the earlier ones is validated by TLC.",
+        note=TRUST + "; well-formed signatures (entropy in [0,8], tolerance >= 0); required-call containment computed independently by the orchestrator"),
 }
 
 NOT_YET = {}
